@@ -7,7 +7,11 @@ VARATTR = {"bare": "#[enum_tools]", "nv": "#[enum_tools = \"x\"]", "empty": "#[e
            "rename_list": "#[enum_tools(rename(\"x\"))]", "rename_int": "#[enum_tools(rename = 1)]",
            "rename_path": "#[enum_tools(rename)]", "Rename": "#[enum_tools(Rename = \"x\")]",
            "two": "#[enum_tools(rename = \"a\", rename = \"b\")]", "unknown": "#[enum_tools(foo = \"x\")]",
-           "rename_str": "#[enum_tools(rename = \"renamed\")]"}
+           "rename_str": "#[enum_tools(rename = \"renamed\")]",
+           "after_rename_unknown": "#[enum_tools(rename = \"renamed\")] #[enum_tools(alias = \"x\")]",
+           "after_rename_bare": "#[enum_tools(rename = \"renamed\")] #[enum_tools]",
+           "after_rename_int": "#[enum_tools(rename = \"renamed\")] #[enum_tools(rename = 5)]",
+           "before_rename_unknown": "#[enum_tools(alias = \"x\")] #[enum_tools(rename = \"renamed\")]"}
 
 
 def base_repr(src):
